@@ -100,6 +100,9 @@ class ExprMixin(object):
       return self.concat_seq(a, b, st)
     if isinstance(b, VRef) and b.ty.kind in ('list', 'vtuple') and isinstance(a, VTuple) and isinstance(op, ast.Add):
       return self.concat_seq(a, b, st)
+    if getattr(self, 'mode', 'vc') == 'event':
+      # opaque operands: the operator application is an uninterpreted pure function of its operands
+      return self.pure_app('binop.' + type(op).__name__, [a, b], 'Any', st)
     raise Unsupported('binary operator %s on %r, %r' % (type(op).__name__, a, b))
 
   def seq_view(self, v, st):
